@@ -176,7 +176,18 @@ func (rn *runner) registerTie(r *lib.RNG) {
 		// again replaces its entry; the model counts entries, so compare per declaration)
 		registered := 0
 		for _, d := range l {
-			out, _, herr := s.HandleReader(context.Background(), strings.NewReader(fmt.Sprintf(`{"jsonrpc":"2.0","method":%q,"id":1}`, d.name)))
+			var out []byte
+			reqText := fmt.Sprintf(`{"jsonrpc":"2.0","method":%q,"id":1}`, d.name)
+			herr, panicked, stack := lib.Try(func() error {
+				o, _, e := s.HandleReader(context.Background(), strings.NewReader(reqText))
+				out = o
+				return e
+			})
+			if panicked {
+				res.Violate(lib.Violation{Sig: "server-panics", What: "[register tie] the server panicked on " + reqText + ": " + herr.Error() + "\n" + firstLines(stack, 12),
+					Replay: map[string]any{"declarations": lines[i], "input_text": reqText}})
+				continue
+			}
 			if herr == nil && !strings.Contains(string(out), "-32601") {
 				registered++
 			}
